@@ -92,6 +92,7 @@ func c17Gen(r *rand.Rand, tier string) []spec.Case {
 	for rep := 0; rep < 2*n; rep++ {
 		for _, grp := range []bool{false, true} {
 			add("two-clients", spec.C17Case{Launch: "runner", TempDir: true, Group: grp, TwoClients: true, AmbientName: "clean", Sets: "legacy1", Mux: rep%2 == 1})
+			add("two-clients-concurrent", spec.C17Case{Launch: "runner", TempDir: true, Group: grp, TwoClients: true, TwoConcurrent: true, SkipHostEnv: true, AmbientName: "clean", Sets: "legacy1", Mux: rep%2 == 1})
 		}
 	}
 	// entries the user put into Cmd.Env that collide with the control variables (the idiom for SkipHostEnv is
@@ -199,6 +200,19 @@ func c17Judge(c spec.Case, evs []spec.Event, d *Death) CaseResult {
 		res.Sample = map[string]any{"two_clients": true, "runner_dirs": o.TwoTmp, "env_dirs": o.TwoEnvDir, "exist_both_alive": o.ExistBoth, "exist_after_kill_A": o.ExistAfterA, "exist_after_kill_B": o.ExistAfterB, "start_errs": o.TwoStartErr}
 		if len(o.TwoTmp) != 2 || len(o.TwoEnvDir) != 2 || len(o.TwoStartErr) != 2 || o.TwoStartErr[0] != "" || o.TwoStartErr[1] != "" {
 			return CaseResult{Verdict: "inconclusive", Inconcl: fmt.Sprintf("two-client round did not start: %v %v", o.TwoTmp, o.TwoStartErr), Class: res.Class}
+		}
+		if p.TwoConcurrent {
+			res.Class += " concurrent"
+			res.Sample = map[string]any{"two_clients_concurrent": true, "runner_dirs": o.TwoTmp, "launch_dirs": o.TwoLaunchDir, "start_errs": o.TwoStartErr}
+			if len(o.TwoLaunchDir) != 2 || len(o.TwoLaunchSame) != 2 {
+				return CaseResult{Verdict: "inconclusive", Inconcl: "no launch observation", Class: res.Class}
+			}
+			for i := 0; i < 2; i++ {
+				if o.TwoLaunchDir[i] != o.TwoTmp[i] || !o.TwoLaunchSame[i] {
+					viol("launch-env-of-another-client", fmt.Sprintf("client %c: the environment its runner was handed had changed by the time the runner launched from it (another client's Start ran in between): PLUGIN_UNIX_SOCKET_DIR=%q, the runner's directory is %q", 'A'+i, o.TwoLaunchDir[i], o.TwoTmp[i]))
+				}
+			}
+			return res
 		}
 		for i := 0; i < 2; i++ {
 			if o.TwoTmp[i] == "" || o.TwoEnvDir[i] != o.TwoTmp[i] {
@@ -349,7 +363,7 @@ func init() {
 		ID: "C17", Level: "exploration", Race: true, TestName: "TestC17",
 		Gen: c17Gen, Batch: 12, Children: 12, PerCase: 3 * time.Second, Base: 90 * time.Second,
 		Judge: c17Judge,
-		Rule:  "cases = client configuration (AutoMTLS x mux x SkipHostEnv x launch method x plugin-set layout x port range x socket group/TempDir x user Cmd.Env, including entries that collide with the control variables) x ambient host environment (clean, marker variables, host that is itself a plugin and carries PLUGIN_* variables, single inherited variable). The environment is captured as handed to a custom runner (in a third of those cases at the second Start of a client whose first RunnerFunc call failed) and as actually received by a real child process (which also reports its stdin's device/inode); e2e cases launch a real serving plugin from such a host; two-client rounds build two clients from one ClientConfig (one UnixSocketConfig) through a RunnerFunc, keep both alive and record the socket directory each runner was handed, PLUGIN_UNIX_SOCKET_DIR in each environment and which directories exist after each Kill. Class = (launch, ambient, AutoMTLS, mux, SkipHostEnv, e2e)",
+		Rule:  "cases = client configuration (AutoMTLS x mux x SkipHostEnv x launch method x plugin-set layout x port range x socket group/TempDir x user Cmd.Env, including entries that collide with the control variables) x ambient host environment (clean, marker variables, host that is itself a plugin and carries PLUGIN_* variables, single inherited variable). The environment is captured as handed to a custom runner (in a third of those cases at the second Start of a client whose first RunnerFunc call failed) and as actually received by a real child process (which also reports its stdin's device/inode); e2e cases launch a real serving plugin from such a host; two-client rounds build two clients from one ClientConfig (one UnixSocketConfig) through a RunnerFunc, keep both alive and record the socket directory each runner was handed, PLUGIN_UNIX_SOCKET_DIR in each environment and which directories exist after each Kill; further rounds start the two clients at the same time with a runner that keeps the cmd.Env slice it was handed and launches from it after the other client prepared its launch. Class = (launch, ambient, AutoMTLS, mux, SkipHostEnv, e2e)",
 		Assumptions: []string{
 			"the effective environment is computed as exec does (last duplicate wins); an empty value counts as absent because that is how the server reads these variables",
 			"only ambient variables are judged under SkipHostEnv; entries the user put into Cmd.Env are theirs",
